@@ -75,18 +75,21 @@ theorem no_canonical_channel_nothing_accepted {s : St} {c c' r : Nat} {ra : Ra}
 /-- **bridge_state_step** — one op leaves the proof height, the credited balances, the metadata flag
     and the handshake counter of every rollapp as they are, unless it is a packet on the rollapp's
     recorded canonical channel, received while the bridge is closed (`tph = 0`) and answered with a
-    success acknowledgement: then the record is what the handshake writes. -/
+    success acknowledgement: then the record is what the handshake writes — or a governance registration
+    of the denom metadata outside the handshake (`premd`), which sets the metadata flag only. -/
 theorem bridge_state_step (s : St) (op : Op) (r : Nat) (ra : Ra) (hg : getRa s r = some ra) :
     ∃ ra', getRa (step s op).1 r = some ra' ∧
       ((ra'.tph = ra.tph ∧ ra'.bal = ra.bal ∧ ra'.md = ra.md ∧ ra'.nOpen = ra.nOpen) ∨
-       (∃ c ph p, op = .recv c ph p ∧ CanonChan s c r ∧ ra.tph = 0 ∧ (step s op).2 = .ok ∧ ra' = (handshake ra ph p).1)) := by
+       (∃ c ph p, op = .recv c ph p ∧ CanonChan s c r ∧ ra.tph = 0 ∧ (step s op).2 = .ok ∧ ra' = (handshake ra ph p).1) ∨
+       (op = .premd r ∧ ra.md = false ∧ ra'.md = true ∧ ra'.tph = ra.tph ∧ ra'.bal = ra.bal ∧ ra'.nOpen = ra.nOpen)) := by
   obtain ⟨ra', hg', hf, _, _⟩ := step_frame s op r ra hg
   refine ⟨ra', hg', ?_⟩
-  rcases hf with hf | ⟨c, ph, p, c', hop, hc, h0, _, hok, hra⟩
+  rcases hf with hf | ⟨c, ph, p, c', hop, hc, h0, _, hok, hra⟩ | ⟨hop, h0, h1, h2, h3, h4⟩
   · left
     simp only [Ra.bridge, Prod.mk.injEq] at hf
     exact hf
-  · exact Or.inr ⟨c, ph, p, hop, ⟨c', hc⟩, h0, hok, hra⟩
+  · exact Or.inr (Or.inl ⟨c, ph, p, hop, ⟨c', hc⟩, h0, hok, hra⟩)
+  · exact Or.inr (Or.inr ⟨hop, h0, h4, h1, h2, h3⟩)
 
 /-- **canonical_channel_recorded_once** — the recorded canonical channel of a rollapp never changes once
     it is set: an op leaves it as it is, or there was none and the op opens a channel (`chopen`), or the
@@ -107,12 +110,11 @@ theorem chopen_ack_refused_when_recorded {s : St} {r : Nat} {ra : Ra} (hg : getR
 -- ------------------------------------------------------------------------------------------------ monotonicity
 
 /-- **opened_stays_open** — once the handshake of `r` has completed, no op sequence whatsoever changes
-    its proof height, credited balances, metadata flag or handshake counter. -/
+    its proof height, credited balances or handshake counter, and registered metadata stays registered. -/
 theorem opened_stays_open {s : St} {r : Nat} {ra : Ra} (hg : getRa s r = some ra) (h1 : ra.tph ≠ 0) (ops : List Op) :
-    ∃ ra', getRa (run s ops) r = some ra' ∧ ra'.tph = ra.tph ∧ ra'.bal = ra.bal ∧ ra'.md = ra.md ∧ ra'.nOpen = ra.nOpen := by
-  obtain ⟨ra', hg', hb⟩ := run_opened s ops r ra hg h1
-  simp only [Ra.bridge, Prod.mk.injEq] at hb
-  exact ⟨ra', hg', hb⟩
+    ∃ ra', getRa (run s ops) r = some ra' ∧ ra'.tph = ra.tph ∧ ra'.bal = ra.bal ∧ ra'.nOpen = ra.nOpen ∧
+      (ra.md = true → ra'.md = true) :=
+  run_opened s ops r ra hg h1
 
 /-- **open_flows_forever** — … so from the completed handshake on, ordinary transfers from the hub over
     the canonical channel flow, after any further history. -/
@@ -162,7 +164,7 @@ theorem total_eq_sum {s : St} {c r : Nat} {ra : Ra} (hs : Reachable s) (hc : Can
     rw [hbal] at hcr
     obtain ⟨_, htot⟩ := credit_total d.gi.accounts [] bal' (by simp) hcr
     have htph : (handshake ra ph p).1.tph ≠ 0 := by rw [hra]; simp only; omega
-    obtain ⟨ra', hg', h1', h2', _, h4'⟩ := opened_stays_open hget htph ops
+    obtain ⟨ra', hg', h1', h2', h4', _⟩ := opened_stays_open hget htph ops
     refine ⟨ra', hg', ?_, ?_, ?_⟩
     · rw [h2', hra]
       simp only
@@ -171,7 +173,56 @@ theorem total_eq_sum {s : St} {c r : Nat} {ra : Ra} (hs : Reachable s) (hc : Can
     · rw [h1', hra]
     · rw [h4', hra]; simp only; omega
 
+-- ------------------------------------------------------------------------------------------------ pre-registered metadata
+
+/-- **preregistered_metadata_blocks_handshake** — when bank metadata of the rollapp's IBC denom is
+    registered before the handshake (governance `CreateDenomMetadataProposal`; `premd`), the handshake's
+    own `CreateDenomMetadata` fails: every packet on the closed canonical channel of a rollapp with a
+    native denom gets an error acknowledgement and the state stays as it is — the bridge cannot open
+    while the registered genesis info keeps its native denom. -/
+theorem preregistered_metadata_blocks_handshake {s : St} {c r : Nat} {ra : Ra} (hs : Reachable s) (hc : CanonChan s c r)
+    (hg : getRa s r = some ra) (h0 : ra.nOpen = 0) (hmd : ra.md = true) (hd : ra.gi.denom.isSet = true)
+    (ph : Nat) (p : Pkt) : ∃ e, step s (.recv c ph p) = (s, .rerr e) := by
+  rcases recv_closed_cases hs hc hg h0 ph p with ⟨h1, e, he⟩ | ⟨_, d, _, hp, hv, _, hra, _⟩
+  · exact ⟨e, by rw [h1, he]⟩
+  · exfalso
+    have hm := validate_matches ((reachable_inv hs).get hg).wf hv
+    have hhs : (handshake ra ph p).2 = .ok := by
+      apply Classical.byContradiction
+      intro hne
+      have h' := handshake_err_unchanged hne
+      rw [hra] at h'
+      have h'' := congrArg Ra.nOpen h'
+      simp at h''
+    rw [hp] at hhs
+    have := handshake_ok_md hhs (by rw [hm.2.2.1]; exact hd)
+    rw [hmd] at this
+    exact absurd this (by simp)
+
+/-- the registration itself is possible only once, needs a recorded canonical channel and a native denom,
+    and leaves the bridge closed -/
+theorem premd_accepted {s : St} {r : Nat} (hok : (step s (.premd r)).2 = .ok) :
+    ∃ ra, getRa s r = some ra ∧ ra.chan.isSome = true ∧ ra.gi.denom.isSet = true ∧ ra.md = false ∧
+      step s (.premd r) = (setRa s { ra with md := true }, .ok) := by
+  revert hok
+  simp only [step, stepPremd]
+  cases hg : getRa s r with
+  | none => intro h; exact absurd h (by simp)
+  | some ra =>
+    simp only
+    repeat' split
+    all_goals intro h
+    all_goals first
+      | (simp at h; done)
+      | (refine ⟨ra, rfl, ?_, ?_, ?_, rfl⟩ <;> (cases hch : ra.chan <;> simp_all))
+
 -- ------------------------------------------------------------------------------------------------ non-vacuity
+
+/-- metadata registered by governance between the channel opening and the handshake: the matching packet is refused
+    with `mdExists` and the bridge stays closed; without the registration the same packet opens it -/
+example : (step (run init (ops0 ++ [.premd 0])) (.recv 0 7 pkt0)).2 = .rerr .mdExists ∧
+    (step (run init ops0) (.recv 0 7 pkt0)).2 = .ok ∧ (step (run init ops0) (.premd 0)).2 = .ok ∧
+    (step (run init (ops0 ++ [.premd 0])) (.premd 0)).2 = .err ∧ (step (run init [.create 0 (some gi0), .seq 0, .canon 0]) (.premd 0)).2 = .err := by decide
 
 /-- launch, canonical client, then a channel opened from the rollapp side (Try/Confirm) and one through a
     nested `MsgChannelOpenAck`: two open channels over the canonical client, no canonical channel recorded -/
